@@ -625,8 +625,8 @@ def c02_9(ctx):
 
 def c02_10(ctx):
     """no verification / signing result is remembered under a key that leaves out the message, the key or the signature"""
-    from sa.memo import memo_obligation
-    return memo_obligation(ctx, ["pecc"], "a signature accepted once would be accepted for another message / key")
+    from sa.memo import cache_obligation
+    return cache_obligation(ctx, ["pecc", "phash"], "a signature accepted once would be accepted for another message / key")
 
 
 def c02_11(ctx):
@@ -638,7 +638,23 @@ def c02_11(ctx):
     return c01_6(ctx) + c03_13(ctx) + c03_10(ctx) + c03_14(ctx) + c03_16(ctx)
 
 
+def c02_12(ctx):
+    """SET-ORDER: no ordered result (list, serialisation, yielded sequence) of the modules this property is anchored in takes its
+    order from the iteration order of a set"""
+    from sa.setorder import setorder_obligation
+    return setorder_obligation(ctx, ["pecc", "phash"], "the same inputs give different output from run to run")
+
+
+def c02_13(ctx):
+    """SHARED necessary conditions over the modules this property is anchored in: FALSY-DEFAULT, MUTABLE-DEFAULT, IDENTITY, ALIAS,
+    CTOR-FORWARD (sa/shared.py)"""
+    from sa.shared import shared_obligations
+    return shared_obligations(ctx, ["pecc", "phash"], "the result would depend on something other than the arguments and the object's current state")
+
+
 OBLIGATIONS = [
+    ("C02.13", "SHARED", c02_13),
+    ("C02.12", "SET-ORDER", c02_12),
     ("C02.10", "MEMO", c02_10),
     ("C02.1", "TABLE+SIBLING", c02_1),
     ("C02.2", "MEMO key", c02_2),
